@@ -421,6 +421,21 @@ fn history(req: &Value) -> R {
             "get_outpoints" => {
                 rec["n"] = json!(live.get_outpoints().len());
             }
+            "edit_input" => {
+                // take the input object OUT of the live transaction (after its accessors have been used), change one field through its own
+                // setter, and put it back with set_input
+                let i = un(st_, "i")? as usize;
+                let mut inp = live.get_input(i).ok_or_else(|| drv("edit_input index"))?;
+                let _ = (inp.get_outpoint_bytes(Some(true)), inp.get_outpoint_hex(None), inp.get_prev_tx_id(None), inp.get_sequence_as_bytes(), inp.get_unlocking_script_hex(), inp.to_bytes().is_ok(), inp.is_coinbase());
+                match st(st_, "field")? {
+                    "vout" => inp.set_vout(un(st_, "v")? as u32),
+                    "seq" => inp.set_sequence(un(st_, "v")? as u32),
+                    "txid" => inp.set_prev_tx_id(&hx(st_, "txid")?),
+                    "script" => inp.set_unlocking_script(&Script::from_bytes(&hx(st_, "script")?).map_err(lib)?),
+                    f => return Err(drv(format!("edit_input field {}", f))),
+                }
+                live.set_input(i, &inp);
+            }
             "accessors" => {
                 // every read accessor of the transaction (some take &mut self): none of them may change what a later sighash returns
                 let n = live.get_outpoints().len();
